@@ -136,6 +136,25 @@ theorem d2t_last (T : TxSpec) (d : Loc) (hD : T.D = some d) (hdir : Directional 
 
 /-! ### the two UTR methods -/
 
+/-- without a chunk, the in-chunk part of the transcript starts at transcript position 0 -/
+theorem crts_zero (t : Transcript) (h : WFT t) (hd : t.exons.strand ≠ .unstranded)
+    (hpos : 0 < (bases t.exons).length) : t.chunkRelativeTranscriptStart = .ok 0 := by
+  unfold chunkRelativeTranscriptStart
+  have h1 := r2p_ok (chunkLocation t.exons) (wf_chunk _ h.exons) 0
+  unfold okR2P expectR2P at h1
+  simp only [toLoc_chunk, hd, if_false, show ¬ ((0 : Int) < 0) by omega, Int.toNat_zero, beq_iff_eq] at h1
+  have hg : (bases t.exons)[0]? = some (bases t.exons)[0] := List.getElem?_eq_getElem hpos
+  rw [hg] at h1
+  simp only [Option.map_some] at h1
+  rw [ans_eq_some] at h1
+  rw [h1]
+  simp only [bind, Except.bind]
+  rw [← ans_eq_some, ans_c2t t h]
+  unfold expC2T
+  have hh : (bases t.exons).head? = some (bases t.exons)[0] := by rw [List.head?_eq_getElem?]; exact hg
+  have := posIdx_of t.exons hd _ 0 (idxOf?_head _ _ hh)
+  simpa [specOf] using this
+
 theorem txScope_unpack (T : TxSpec) (d : Loc) (hD : T.D = some d) (h : txScope T = true) :
     Directional T ∧ nonOverlap T.E.blocks = true ∧ d.strand = T.E.strand := by
   unfold txScope at h
@@ -182,6 +201,10 @@ theorem utr5_ok (t : Transcript) (h : WFT t) : okUtr5 (specOf t) (ans t.get5pInt
         rw [ans_eq_some] at h1
         rw [h1]
         simp only []
+        rw [crts_zero t h hdir.1 (by rw [bases_length]; omega)]
+        simp only []
+        have hclamp : min (max ((k : Int) - 0) 0) (t.exons.len : Int) = (k : Int) := by omega
+        rw [hclamp]
         have hok := relInterval_ok (chunkLocation t.exons) (wf_chunk _ h.exons) 0 (k : Int) .plus
         have := okRelint_plus_extract (chunkLocation t.exons) t.exons (toLoc_chunk _) hdir.1 hno 0 k
           (Nat.zero_le _) (by omega) (by omega) _ hok
@@ -235,9 +258,12 @@ theorem utr3_ok (t : Transcript) (h : WFT t) : okUtr3 (specOf t) (ans t.get3pInt
         rw [ans_eq_some] at h1
         rw [h1]
         simp only []
-        have e : (((k + (bases d).length : Nat) : Int) - 1 + 1) = ((k + (bases d).length : Nat) : Int) := by omega
-        rw [e]
         have hlen := bases_length t.exons
+        rw [crts_zero t h hdir.1 (by omega)]
+        simp only []
+        have e : min (max ((((k + (bases d).length : Nat) : Int) - 1 + 1) - 0) 0) (t.exons.len : Int)
+            = ((k + (bases d).length : Nat) : Int) := by omega
+        rw [e]
         have hok := relInterval_ok (chunkLocation t.exons) (wf_chunk _ h.exons)
           ((k + (bases d).length : Nat) : Int) (t.exons.len : Int) .plus
         have := okRelint_plus_extract (chunkLocation t.exons) t.exons (toLoc_chunk _) hdir.1 hno
